@@ -386,31 +386,34 @@ def _matches_strike_rounding(product, call, entry, what, fp, K, got, tol):
 def _broadcast_class(G, what, route, entry, o, sk):
     """Defect model: torch.autograd.grad(price, x, ones_like(price)) returns d(sum of all prices)/dx in
     the shape of x, i.e. the Greek summed over the axes along which x was broadcast.  (With a python-float
-    strike that float32 cannot represent, finding 13 rides on top: the summands are then the Greeks at the
-    shifted spot.)"""
+    strike that float32 cannot represent, finding 13 may ride on top: the summands are then the Greeks at
+    the shifted spot - both variants are tried, so the classification does not depend on whether finding 13
+    is still present in the tree.)"""
     ns, nt, nv = len(G["s"]), len(G["t"]), len(G["v"])
-    E3 = G["E"][route].reshape(ns, nt, nv)
+    variants = [G["E"][route].reshape(ns, nt, nv)]
     if sk == "float" and not G["k_rep"] and route in ("delta", "gamma"):
         shift = (f32_round(G["K"]), G["K"])
-        E3 = torch.tensor([float(model_point(G["product"], G["call"], *fp, G["K"], shift, only=(route,))[route])
-                           for fp in G["fpts"]], dtype=torch.float64).reshape(ns, nt, nv)
+        variants.append(torch.tensor([float(model_point(G["product"], G["call"], *fp, G["K"], shift, only=(route,))[route])
+                                      for fp in G["fpts"]], dtype=torch.float64).reshape(ns, nt, nv))
     T3 = G["TOL"][route].reshape(ns, nt, nv)
     axes = {"delta": (1, 2), "gamma": (1, 2), "vega": (0, 1), "theta": (0, 2)}[route]
-    pred = E3.sum(axes, keepdim=True)
-    slack = T3.sum(axes, keepdim=True) * 4 + 1e-300
-    if entry == "functional" and G["product"] == "lookback" and what in ("vega", "theta"):
-        S = (torch.tensor(G["s"], dtype=torch.float64).exp() * G["K"])[:, None, None]
-        t = torch.tensor(G["t"], dtype=torch.float64)[None, :, None]
-        v = torch.tensor(G["v"], dtype=torch.float64)[None, None, :]
-        fac = v * S * S * t if what == "vega" else -v * v * S * S / 2
-        pred = pred * fac
-        slack = slack * fac.abs() + 1e-300
     o = o.to(torch.float64)
-    if tuple(o.shape) != tuple(pred.shape):
-        return "shape"
-    if bool(((o - pred).abs() <= slack).all()):
-        return "broadcast_inputs_summed"
-    return "value"
+    verdict = "value"
+    for E3 in variants:
+        pred = E3.sum(axes, keepdim=True)
+        slack = T3.sum(axes, keepdim=True) * 4 + 1e-300
+        if entry == "functional" and G["product"] == "lookback" and what in ("vega", "theta"):
+            S = (torch.tensor(G["s"], dtype=torch.float64).exp() * G["K"])[:, None, None]
+            t = torch.tensor(G["t"], dtype=torch.float64)[None, :, None]
+            v = torch.tensor(G["v"], dtype=torch.float64)[None, None, :]
+            fac = v * S * S * t if what == "vega" else -v * v * S * S / 2
+            pred = pred * fac
+            slack = slack * fac.abs() + 1e-300
+        if tuple(o.shape) != tuple(pred.shape):
+            return "shape"
+        if bool(((o - pred).abs() <= slack).all()):
+            verdict = "broadcast_inputs_summed"
+    return verdict
 
 
 # ------------------------------------------------------------------------------------------------
